@@ -16,7 +16,7 @@ import bz2, json, os, random, re
 import vlib, campaign, inproc, bzcraft
 
 LEVEL = "model_checking"
-TSAN = {"TSAN_OPTIONS": "exitcode=66 halt_on_error=0 report_signal_unsafe=0 second_deadlock_stack=1"}
+TSAN = {"TSAN_OPTIONS": "exitcode=66 halt_on_error=0 report_signal_unsafe=0 report_thread_leaks=0 second_deadlock_stack=1"}
 
 
 def model(rep):
